@@ -51,7 +51,15 @@ def judge_tournament(case, rec, source, exhaustive_tag):
 
     minimize = case["minimize"]
     nf = case.get("number_form")
-    problem = SingleObjectiveProblem(lambda p: as_form(p[1][0], nf), minimize=minimize)
+    if case.get("int_aggregate"):
+        # a multi-objective problem whose custom aggregate packs its value into a large Python int
+        # (priority * 10**18 + score): exact, but beyond the 2**53 a double can tell apart
+        from geneticengine.problems import MultiObjectiveProblem
+
+        sign = -1 if minimize else 1
+        problem = MultiObjectiveProblem([minimize], lambda p: [p[1][0]], aggregate_fitness=lambda xs: 3 * 10**18 + sign * int(xs[0]))
+    else:
+        problem = SingleObjectiveProblem(lambda p: as_form(p[1][0], nf), minimize=minimize)
     inds = mk_inds([[v] for v in case["values"]])
     if case.get("decoy"):
         # the same individuals were evaluated earlier under another problem (opposite direction)
@@ -107,7 +115,8 @@ class TournamentRecorded(Facet):
     def strategy(self, tier):
         return st.one_of(st.integers(1, 8), st.integers(1, 8 if tier == "quick" else 60)).flatmap(
             lambda n: st.builds(
-                lambda values, ts, repl, tgt, minimize, seed, decoy: {"values": values, "tsize": ts, "replacement": repl, "target": tgt, "minimize": minimize, "seed": seed, "decoy": decoy, "reused": seed % 2 == 1, "number_form": NUMBER_FORMS[(seed // 2) % len(NUMBER_FORMS)]},
+                lambda values, ts, repl, tgt, minimize, seed, decoy: {"values": values if seed % 4 != 3 else [v if isinstance(v, int) else int(v) for v in values], "tsize": ts, "replacement": repl, "target": tgt, "minimize": minimize, "seed": seed, "decoy": decoy and seed % 4 != 3, "reused": seed % 2 == 1, "number_form": NUMBER_FORMS[(seed // 2) % len(NUMBER_FORMS)],
+                                                                    "int_aggregate": seed % 4 == 3},
                 st.lists(single_objective_values(), min_size=n, max_size=n),
                 st.integers(1, n + 2),
                 st.booleans(),
